@@ -176,6 +176,7 @@ class World:
         self.txindex = {}       # txid -> TxRec (every tx ever created, for getrawtransaction)
         self.outpoint_table = {}    # (txid, idx) -> (script, value): chain independent
         self.version = 0        # bumped on every change (stability detection)
+        self.collision_txs = []     # pre-ground txs sharing a 4-byte txid prefix, as placed
         genesis = self._add_block(None, [self._coinbase(0, [(0, 0)], 0)])
         self.best = genesis
         self.genesis = genesis
@@ -233,6 +234,7 @@ class World:
                 cand = collision_tx(m['nonce'], g['layouts'][m['layout']])
                 if cand.txid.hex() == m['txid'] and cand.txid not in self._chain_txids(parent):
                     cb = cand
+                    self.collision_txs.append(cand)
         if cb is None:
             cb = self._coinbase(height, desc.get('cb') or [[0, 0]], desc.get('nonce', 0))
         txs = [cb]
